@@ -94,7 +94,7 @@ def setup():
 
 def budget(tier):
     return {'quick': dict(seconds=70, cases=1200, shrink_s=20, search_s=10),
-            'thorough': dict(seconds=480, cases=4000, shrink_s=40, search_s=30)}[tier]
+            'thorough': dict(seconds=480, cases=60000, shrink_s=40, search_s=30)}[tier]
 
 
 def state_key(s, nophase):
